@@ -305,6 +305,11 @@ where
     let mut shift = -jac_inv * func_eval;
     guess += &shift;
 
+    // Already converged (e.g. started on the root): the rank-one update below would divide by zero
+    if shift.norm().abs() <= tol {
+        return Ok(guess);
+    }
+
     while n < n_max {
         let func_eval_last = func_eval;
         func_eval = func(guess.as_slice());
